@@ -273,6 +273,14 @@ def first_use_probe(repo, runs=3):
     return out
 
 
+def interp_state():
+    """process-wide interpreter state no library call may leave changed (later calls' outcomes depend on it: the recursion limit decides which
+    nesting depth still parses)"""
+    import sys, gc, locale
+    return {'recursionlimit': sys.getrecursionlimit(), 'switchinterval': sys.getswitchinterval(), 'cwd': os.getcwd(), 'gc': gc.isenabled(),
+            'locale': locale.setlocale(locale.LC_ALL, None)}
+
+
 def snapshot():
     """what a failure record needs to re-create the circumstances of the last call"""
     if not STATE['installed']:
